@@ -28,7 +28,7 @@ def main():
     total = eng.cases(prop, tier, seed)
     res = {'runs': 0, 'nontrivial_fps': [], 'sit': collections.Counter(), 'obs': collections.Counter(),
            'escaped': collections.Counter(), 'other_props': collections.Counter(), 'inconclusive': collections.Counter(),
-           'samples': [], 'violations': [], 'not_run': 0}
+           'samples': [], 'violations': [], 'not_run': 0, 'escaped_first_case': {}}
     fps = set()
     sigs = collections.Counter()
     known = collections.Counter()
@@ -50,6 +50,8 @@ def main():
         res['sit'].update(r.get('sit', {}))
         res['obs'].update(r.get('obs', {}))
         res['escaped'].update(r.get('escaped', {}))
+        for sig in r.get('escaped', {}):
+            res['escaped_first_case'].setdefault(sig, i)
         res['other_props'].update(r.get('other_props', {}))
         if r.get('inconclusive'):
             res['inconclusive'][r['inconclusive']] += 1
